@@ -60,3 +60,22 @@ Definition pdone (s : pstate) : Prop :=
 
 (* what stdout holds: the records' bytes one after another *)
 Definition pbytes (s : pstate) : list Z := concat (p_out s).
+
+(* ---- the front end of the tool: every input (stdin or each -i file) is framed by
+   its own WARCReader in a reader thread; an exception there is not caught
+   (ReadInput has no handler): the process aborts.  [read] = the reader on one
+   input; None = it threw. *)
+Definition ptool_inputs (read : list Z -> option (list rec)) (streams : list (list Z)) : option (list (list rec)) :=
+  fold_right (fun s acc =>
+                match read s, acc with
+                | Some r, Some l => Some (r :: l)
+                | _, _ => None
+                end) (Some []) streams.
+
+(* whole tool under a schedule: None = abnormal end *)
+Definition ptool (read : list Z -> option (list rec)) (streams : list (list Z)) (jobs : nat) (sched : list action)
+  : option pstate :=
+  match ptool_inputs read streams with
+  | Some inputs => Some (prun (pinit inputs jobs) sched)
+  | None => None
+  end.
